@@ -15,8 +15,10 @@ Lines:
   `adv loop <target> [<c1,c2,…>]` | `adv closer <t> <target> [<c1,c2,…>]`  → ok [pend=<n>] | reject …
         applies `loop c` / `closer t c` events (at least one, at most k+6) until the thread's pc is <target>;
         targets: waiting ticked begin deliver:<cell> flush exited   (loop)
-                 won doneClosed begin deliver:<cell> flush purge reporterClose returned returnedNil   (closer)
-        (a pc inside the range loops is shown as `pick:<number of cells visited>`)
+                 won doneClosed begin deliver:<cell> purge flush reporterClose returned returnedNil   (closer)
+        (a pc inside the range loops is shown as `pick:<number of cells visited>`; for a closer `purge` =
+        the final pass is over, about to purge, and `flush` = purged, about to call Flush: the final flush
+        comes AFTER the purge)
         the optional last token `c1,c2,…` (`-` = none; may be written `<c1,c2,…>`) lists the cells the pass
         visits during this advance, in order: the choices of the successive `pick` steps; when the list is
         exhausted and a `pick` step is still needed the choice is k ("the range loops are over").  Without
@@ -45,7 +47,7 @@ def loopName : LoopPc → String
   | .pass p => passName p
 
 def closerName : CPc → String
-  | .start => "start" | .won => "won" | .doneClosedPc => "doneClosed" | .purgePc => "purge"
+  | .start => "start" | .won => "won" | .doneClosedPc => "doneClosed" | .purgePc => "purge" | .flushPc => "flush"
   | .reporterClose => "reporterClose" | .returned _ => "returned" | .returnedNil => "returnedNil"
   | .pass p => passName p
 
